@@ -12,7 +12,7 @@
    The proofs mention generated names only through the function name. *)
 From Coq Require Import List Arith Bool ZArith QArith Lia.
 Import ListNotations.
-From AgileV Require Import TR.PyLib C10.Model.
+From AgileV Require Import Base.Prelude C09.Model TR.PyLib C10.Model.
 From AgileGen Require Import GenC10.
 
 (* ---- interpretation of the abstract tensor operations on the model's data ---- *)
@@ -41,8 +41,15 @@ Definition tadd (a b : ten) : ten := match a, b with TQ x, TQ y => TQ (zipw Qplu
 Definition tscale (a : ten) (w : Q) : ten := match a with TQ x => TQ (map (fun q => Qmult q w) x) | _ => a end.
 Definition gpow (g : Q) (k : Z) : Q := qpow g (Z.to_nat k).
 
+(* super().add(td) on the parent part of the buffer: the C09 ring-buffer model *)
+Definition padd (b : rb cell) (v : vtr) : rb cell := rb_add b v.
+
 Definition translated_info (g : Q) (w : list vtr) : res vtr :=
-  MultiStepReplayBuffer_get_n_step_info KReward KDone KNs tget tset tany tadd tscale (gpow g) w.
+  MultiStepReplayBuffer_get_n_step_info KReward KDone KNs tget tset tany tadd tscale (gpow g) padd w.
+
+Definition translated_add (g : Q) (n : nat) (w : list vtr) (b : rb cell) (t : vtr)
+  : res (option vtr * list vtr * rb cell) :=
+  MultiStepReplayBuffer_add KReward KDone KNs tget tset tany tadd tscale (gpow g) padd (Z.of_nat n) w b t.
 
 (* ---- list facts ---- *)
 Lemma zget_ok {A} (l : list A) (i : Z) (d : A) :
@@ -180,3 +187,27 @@ Proof.
   apply (C10_translated_n_step_info_is_model g E first rest HW).
 Qed.
 Print Assumptions C10_translated_window_matches_spec.
+
+(* ================================ MultiStepReplayBuffer.add ===================================== *)
+(* deque append, the `not full yet` test, the fusion of the window, the hand-over to ReplayBuffer.add (the parent
+   part, abstract operation interpreted as C09's rb_add) and the returned oldest raw transition *)
+Lemma Forall_skipn {A} (P : A -> Prop) : forall (k : nat) (l : list A), Forall P l -> Forall P (skipn k l).
+Proof. induction k as [|k IH]; intros [|a l] H; cbn; auto. apply IH. inversion H; assumption. Qed.
+
+Theorem C10_translated_add_is_model :
+  forall (g : Q) (n E : nat) (w : list vtr) (b : rb cell) (t : vtr),
+    (1 <= n)%nat -> Forall (fun v => length v = E) (w ++ [t]) ->
+    translated_add g n w b t
+    = Ok (let '(w', b', r) := ns_add (n_step_info g) n w b t in (r, w', b')).
+Proof.
+  intros g n E w b t Hn HE. unfold translated_add, MultiStepReplayBuffer_add, ns_add, dq_append, lastn, zdq_append.
+  cbv zeta. rewrite Nat2Z.id. unfold zlen.
+  set (w' := skipn (length (w ++ [t]) - n) (w ++ [t])).
+  assert (HW : Forall (fun v => length v = E) w') by (apply Forall_skipn; exact HE).
+  destruct (Nat.ltb_spec (length w') n); destruct (Z.ltb_spec (Z.of_nat (length w')) (Z.of_nat n)); try lia.
+  - reflexivity.
+  - destruct w' as [|first rest] eqn:Ew; [cbn [length] in *; lia|].
+    fold (translated_info g (first :: rest)).
+    rewrite (C10_translated_n_step_info_is_model g E first rest HW). cbn [bind hd]. reflexivity.
+Qed.
+Print Assumptions C10_translated_add_is_model.
